@@ -58,7 +58,7 @@ def gen_src(rnd, depth=0, scope=None, rich=True):
     return "<%s%s%s>%s</%s>" % (name, decl, attrs, kids, name) if kids else "<%s%s%s/>" % (name, decl, attrs)
 
 
-def gen_api_tree(rnd, depth=0):
+def gen_api_tree(rnd, depth=0, xmlns_attr=False):
     """content tree (see common.cnode) to be built through the API: any namespace on any element/attribute"""
     ns = rnd.choice(["", "", "u1", "u2", "u3", SVG])
     attrs = {}
@@ -68,6 +68,8 @@ def gen_api_tree(rnd, depth=0):
         else:
             a = (rnd.choice(["", "", "u1", "u2", XLINK]), rnd.choice(["k", "j"]))
         attrs[a] = "".join(rnd.choice(API_ATTR) for _ in range(rnd.randint(0, 2)))
+    if xmlns_attr and rnd.random() < .4:
+        attrs[("", "xmlns")] = rnd.choice(["u1", "u9"])
     kids = []
     if depth < 3:
         for _ in range(rnd.randint(0, 3)):
@@ -79,7 +81,7 @@ def gen_api_tree(rnd, depth=0):
             elif q < .5:
                 kids.append(("pi", rnd.choice(["t", "u"]), rnd.choice(["p", "", "a='<' ", "x?y>"])))
             else:
-                kids.append(gen_api_tree(rnd, depth + 1))
+                kids.append(gen_api_tree(rnd, depth + 1, xmlns_attr))
     return ("tag", ns, rnd.choice(["a", "b"]), sorted((a, b, c) for (a, b), c in attrs.items()), kids)
 
 
